@@ -12,12 +12,19 @@ VARIABLES n, hist     \* unused parts of Backoff (instantiated for its operators
 INSTANCE Backoff
 
 TraceLog == ndJsonDeserialize(IOEnv.TRACE)
-VARIABLES st, l, tid, bad     \* st: id -> [t, o, d, cnt, touched, seen]
-tvars == <<st, l, tid, bad, n, hist>>
+VARIABLES st, l, tid, bad,    \* st: id -> [t, o, d, cnt, touched, seen]
+          acct                \* accounting of the reconcile invocations seen so far: [processed, crashes, skips, requeues]
+tvars == <<st, l, tid, bad, n, hist, acct>>
+Acct0 == [processed |-> 0, crashes |-> 0, skips |-> 0, requeues |-> 0]
+Count(a, o, d) == LET m == MetricOf(o, d) IN
+                  [a EXCEPT !.processed = @ + 1,
+                            !.crashes = IF m = "crashes" THEN @ + 1 ELSE @,
+                            !.skips = IF m = "skips" THEN @ + 1 ELSE @,
+                            !.requeues = IF m = "requeues" THEN @ + 1 ELSE @]
 Empty == [x \in {} |-> 0]
 Put(f, k, v) == [x \in DOMAIN f \cup {k} |-> IF x = k THEN v ELSE f[x]]
 
-TInit == st = Empty /\ l = 1 /\ tid = "" /\ bad = FALSE /\ n = 0 /\ hist = <<>>
+TInit == st = Empty /\ l = 1 /\ tid = "" /\ bad = FALSE /\ n = 0 /\ hist = <<>> /\ acct = Acct0
 Reject(what, exp, got) ==
   /\ PrintT(<<"MISMATCH", tid, l, what>>) /\ PrintT(<<"DETAIL", ToString(exp), ToString(got)>>)
   /\ bad' = TRUE /\ UNCHANGED <<st, tid>>
@@ -55,13 +62,19 @@ End(e) ==
       noretry == {i \in DOMAIN st : st[i].seen /\ st[i].o \notin {"ok", "skip", "startlong"}}
   IN IF lost # {} THEN Reject("lost-notification", lost, "no reconcile")
      ELSE IF noretry # {} THEN Reject("retry-lost", noretry, "no retry until the end")
+     (* the runtime's metrics of the controller (deltas over the behaviour) against the invocations the trace lists *)
+     ELSE IF "m" \in DOMAIN e /\ [processed |-> e.m.processed, crashes |-> e.m.crashes, skips |-> e.m.skips, requeues |-> e.m.requeues] # acct
+          THEN Reject("metrics-disagree-with-invocations", acct, e.m)
      ELSE UNCHANGED st /\ Keep
 
 TNext ==
   /\ l <= Len(TraceLog) /\ l' = l + 1 /\ UNCHANGED <<n, hist>>
   /\ LET e == TraceLog[l] IN
-       IF e.ev = "reset" THEN st' = Empty /\ tid' = e.tid /\ bad' = FALSE
-       ELSE IF bad THEN UNCHANGED <<st, tid, bad>>
+       IF e.ev = "rec" /\ ~bad /\ "o" \in DOMAIN e THEN acct' = Count(acct, e.o, IF "d" \in DOMAIN e THEN e.d ELSE 0)
+       ELSE IF e.ev = "reset" \/ bad THEN TRUE ELSE acct' = acct
+  /\ LET e == TraceLog[l] IN
+       IF e.ev = "reset" THEN st' = Empty /\ tid' = e.tid /\ bad' = FALSE /\ acct' = Acct0
+       ELSE IF bad THEN UNCHANGED <<st, tid, bad, acct>>
        ELSE CASE e.ev = "rec" -> Rec(e)
               [] e.ev = "touch" -> Touch(e)
               [] e.ev = "end" -> End(e)
